@@ -118,6 +118,30 @@ def run(ctx: Ctx) -> None:
     lines_d, exp_d, lines_t, exp_t, metas = [], [], [], [], []
     from markdown_it.tree import SyntaxTreeNode
 
+    # ---- documents at scale (limits and guards that only large inputs reach): tree builds and flattens back, render repeats
+    from markdown_it import MarkdownIt
+    big = MarkdownIt("js-default")
+    scale = {"wide-table": "|" + "h|" * 258 + "\n|" + "-|" * 258 + "\n" + "|x|\n" * 256,
+             "long-list": "".join(f"{i_}. item *{i_}*\n" for i_ in range(1, 1500)),
+             "many-refs": "".join(f"[r{i_}]: /u{i_}\n" for i_ in range(400)) + "\n" + " ".join(f"[r{i_}]" for i_ in range(400)) + "\n",
+             "deep-quote-list": "> - " * 30 + "x\n"}
+    for name, src in scale.items():
+        try:
+            toks = big.parse(src)
+        except Exception:
+            continue
+        ctx.count(("scale", name), nontrivial=True)
+        if sum(t.nesting for t in toks) != 0:
+            ctx.fail("tree-roundtrip", f"the token stream of the {name} document is not balanced (sum of nesting {sum(t.nesting for t in toks)}): "
+                     "SyntaxTreeNode cannot be built", {"input": src[:200] + "…", "doc": name, "cfg": "js-default"})
+            continue
+        try:
+            back = SyntaxTreeNode(toks).to_tokens()
+            if [t.as_dict() for t in back] != [t.as_dict() for t in toks]:
+                ctx.fail("tree-roundtrip", f"SyntaxTreeNode(tokens).to_tokens() differs from tokens on the {name} document", {"input": src[:200] + "…", "doc": name})
+        except Exception as e:  # noqa: BLE001
+            ctx.fail("tree-roundtrip", f"SyntaxTreeNode raised {type(e).__name__} on the {name} document", {"input": src[:200] + "…", "doc": name})
+
     for i, src in enumerate(gens.doc_stream(rng, n, 7)):
         if rng.random() < 0.25:
             c = gens.rand_cfg(rng)
